@@ -235,6 +235,22 @@ func checkPurityFiles(run *core.Run, files []core.File) {
 	if (err1 == nil) != (err2 == nil) || (err1 == nil && !proto.Equal(m1, m2)) || (err1 != nil && err1.Error() != err2.Error()) {
 		run.Violation("second-call-differs:TransformModuleFilesToModel", &core.Case{Kind: "files", Files: files}, fmt.Sprint(err1), fmt.Sprint(err2))
 	}
+	// a returned error list must not change when a later call (on other inputs) is made
+	if err1 != nil {
+		es1, _ := flattenMergeErr(err1)
+		before := fmtMergeErrs(es1) + "\n" + err1.Error()
+		other := make([]transformer.ModuleFile, len(mods))
+		for i, f := range mods {
+			other[i] = transformer.ModuleFile{Name: "later-" + f.Name, Contents: f.Contents}
+		}
+		callMerge(other, "1.2")
+		run.Eval(1)
+		es1b, _ := flattenMergeErr(err1)
+		if after := fmtMergeErrs(es1b) + "\n" + err1.Error(); after != before {
+			run.Violation("returned-error-changed-by-a-later-call", &core.Case{Kind: "files", Files: files}, before, after)
+		}
+		run.Count("error_results_rechecked_after_a_later_call", 1)
+	}
 	// the returned model must not alias state that a later call changes
 	if err1 == nil {
 		k1 := modelKey(m1)
